@@ -419,6 +419,14 @@ func (t *textGen) graphs(n int) {
 			text = strings.Join(lines, "\n")
 			family = "malformed-line"
 		}
+		if t.r.chance(1, 3) {
+			// empty and white-space-only lines anywhere: skipped, never counted
+			for k := 0; k < 1+t.r.intn(3); k++ {
+				at := t.r.intn(len(lines) + 1)
+				lines = append(lines[:at], append([]string{[]string{"", " ", "\t ", "   "}[t.r.intn(4)]}, lines[at:]...)...)
+			}
+			text = strings.Join(lines, "\n")
+		}
 		ans := guard(func() string {
 			g2, _ := st.NewGraph(ctx, "?h")
 			rn, rerr := bwio.ReadIntoGraph(ctx, g2, strings.NewReader(text), literal.DefaultBuilder())
@@ -452,6 +460,21 @@ func (t *textGen) graphs(n int) {
 				if strings.Join(uniq, ";") != strings.Join(encs, ";") {
 					extra += " set-differs"
 				}
+			}
+			// the reported count, by the property's own words: the triples loaded, i.e. the non-empty lines
+			// before the first one that is not a triple
+			want := 0
+			for _, l := range strings.Split(text, "\n") {
+				if strings.TrimSpace(l) == "" {
+					continue
+				}
+				if _, perr := triple.Parse(strings.TrimSpace(l), literal.DefaultBuilder()); perr != nil {
+					break
+				}
+				want++
+			}
+			if rn != want {
+				extra += fmt.Sprintf(" count-wrong reported=%d loaded=%d", rn, want)
 			}
 			return fmt.Sprintf("%s n=%d %s%s", cls, rn, strings.Join(encs, ";"), extra)
 		})
